@@ -25,6 +25,10 @@ def classify(c):
     ops = _ops(job)
     kind = c["kind"]
     opts = job.get("opts") or {}
+    if opts.get("resolver") == "merged_keep" and kind == "noquiesce":
+        # resolver answers (merged data, keep=True): both originals are renamed to .conflicted and the merged file is
+        # created on both sides; the new files are seen as a fresh create/create conflict and the cycle repeats
+        return "G4-merged-keep-never-quiesces"
     # folder renames present?
     folder_renames = [(s, op) for s, op in ops if op[0] == "rename" and op[1] in ("d", "e", "e/f")]
     for s, fr in folder_renames:
@@ -45,4 +49,8 @@ def classify(c):
             return "G2-same-target-name"
     if folder_renames:
         return "G1-folder-rename-vs-child"
+    if kind == "origin-written" and job["cfg"] in ("po", "pci", "pp", "op"):
+        # path-id side: change seen, object gone before sync, delete event not yet taken in -> after 5 punts the
+        # engine re-creates the peer copy on the origin side (manager.handle_changed_is_missing)
+        return "G3-missing-revive-origin-write"
     return None
